@@ -36,11 +36,13 @@ XAdd(P, Q, c) ==
              y3 == XS(c, XM(c, l, XS(c, P.x, x3)), P.y)
          IN  XPt(x3, y3)
 
-RECURSIVE XMulR(_, _, _, _, _)
-XMulR(n, P, c, i, acc) ==
-    IF i < 0 THEN acc
-    ELSE LET d == XDbl(acc, c) IN
-         XMulR(n, P, c, i - 1, IF BBit(n, i) = 1 THEN XAdd(d, P, c) ELSE d)
-XMulNat(n, P, c) == XMulR(n, P, c, BBits(n) - 1, XInf(c))
+RECURSIVE XMulR(_, _, _, _, _, _)
+XMulR(n, P, c, acc, lo, hi) ==         \* balanced fold, see lib/Tower.TExpR
+    IF hi - lo = 1
+    THEN LET d == XDbl(acc, c) IN IF BBit(n, lo) = 1 THEN XAdd(d, P, c) ELSE d
+    ELSE LET mid == (lo + hi) \div 2
+             a1  == XMulR(n, P, c, acc, mid, hi)
+         IN  IF a1 = a1 THEN XMulR(n, P, c, a1, lo, mid) ELSE a1
+XMulNat(n, P, c) == IF BBits(n) = 0 THEN XInf(c) ELSE XMulR(n, P, c, XInf(c), 0, BBits(n))
 XMul(neg, mag, P, c) == IF neg THEN XNeg(XMulNat(mag, P, c), c) ELSE XMulNat(mag, P, c)
 =============================================================================
